@@ -133,6 +133,11 @@ RetComplaints(e) ==
        \cup When(r.base < c.ofloor, {<<"C13", "snapshot older than an update the same thread completed earlier">>})
        \cup When(sc /\ r.base < c.floor, {<<"C13", "snapshot older than an update that completed before it began">>})
        \cup When(e.nops > 1 + 3 * e.seqlen, {<<"C18", "snapshot took more loads than completed writes can explain">>})
+     ELSE IF c.k = "upd" THEN
+            \* update() never gives up: holding the lock, it ignores the new pair only if it is not newer than the base time
+            \* that is current then (what a writer that died on a mismatched pair tried to store does not count)
+            When(c.locked /\ ~c.stored /\ c.val > c.curAtLock,
+                 {<<"C13", "update() ignored a pair newer than the base time that was current while it held the lock">>})
      ELSE IF c.k = "unlocked" THEN
             When(e.nops > 4 + 3 * e.seqlen, {<<"C18", "get_base_time_unlocked took an unbounded number of steps">>})
      ELSE IF c.k = "try" THEN
